@@ -121,10 +121,58 @@ def is_symbool(v): return isinstance(v, z3.BoolRef)
 def is_symbytes(v): return isinstance(v, z3.SeqRef)
 BYTES = z3.SeqSort(z3.IntSort())
 
+BLOB_MIN = 48
+BLOBS = {}      # concrete bytes -> named z3 constant (sound abstraction of long constants: only the length is kept)
+
+def blob(v):
+    v = bytes(v)
+    if v not in BLOBS:
+        import hashlib
+        BLOBS[v] = z3.Const("blob_%s_%d" % (hashlib.sha1(v).hexdigest()[:10], len(v)), BYTES)
+    return BLOBS[v]
+
+def blob_facts():
+    return [v >= 0 for v in ABS_LEN.values() if is_sym(v)]
+
+zerosfn = z3.Function("zeros", z3.IntSort(), BYTES)
+ABS_LEN = {}    # name of a Seq constant -> Int term standing for its length (never given to the sequence solver)
+
+def abstract_seq(name, length=None):
+    """a byte sequence of arbitrary (possibly huge) length: the sequence solver never sees a length constraint on it;
+    its length is the integer term ABS_LEN[name] (a fresh Int >= 0, or the given concrete length)"""
+    c = z3.Const(name, BYTES)
+    ABS_LEN[name] = z3.IntVal(length) if isinstance(length, int) else (length if length is not None else z3.Int("len_" + name))
+    return c
+
+def slen(v):
+    """length of a byte value as an integer term, computed structurally (Concat/Unit/Empty/If/blob/abstract constants)"""
+    if isinstance(v, (bytes, bytearray)): return len(v)
+    if isinstance(v, ByteBuf): return slen(v.v)
+    if not is_symbytes(v): raise Unsupported(f"slen of {v!r}")
+    if z3.is_app(v):
+        k = v.decl().kind()
+        if k == z3.Z3_OP_SEQ_CONCAT:
+            parts = [slen(c) for c in v.children()]
+            return sum(parts[1:], parts[0])
+        if k == z3.Z3_OP_SEQ_UNIT: return 1
+        if k == z3.Z3_OP_SEQ_EMPTY: return 0
+        if k == z3.Z3_OP_ITE:
+            c, a, b = v.children(); la, lb = slen(a), slen(b)
+            if isinstance(la, int) and isinstance(lb, int) and la == lb: return la
+            return z3.If(c, la, lb)
+        if k == z3.Z3_OP_UNINTERPRETED and v.decl().name() == "zeros": return v.arg(0)
+        if k == z3.Z3_OP_UNINTERPRETED and v.num_args() == 0:
+            n = v.decl().name()
+            if n in ABS_LEN: return ABS_LEN[n]
+            for bv, c in BLOBS.items():
+                if c.decl().name() == n: return len(bv)
+    return z3.Length(v)
+
 def to_z3bytes(v):
     if is_symbytes(v): return v
     if isinstance(v, (bytes, bytearray)):
         if len(v) == 0: return z3.Empty(BYTES)
+        if len(v) >= BLOB_MIN: return blob(v)
         units = [z3.Unit(z3.IntVal(b)) for b in v]
         return units[0] if len(units) == 1 else z3.Concat(*units)
     raise Unsupported(f"to_z3bytes {v!r}")
@@ -230,19 +278,21 @@ class Engine:
             except Unsupported: bases.append(Opaque("base"))
         ns = {}
         cls = ClassV(node.name, bases, ns, mod)
+        cenv = Env(env); cenv.vars = ns      # class body scope: names bound earlier in the body are visible to later statements
         for item in node.body:
             if isinstance(item, ast.FunctionDef):
                 f = Func(item, env, mod, f"{node.name}.{item.name}"); f.owner = cls
                 f.is_classmethod = any(isinstance(d, ast.Name) and d.id == "classmethod" for d in item.decorator_list)
                 ns[item.name] = f
             elif isinstance(item, ast.Assign) and isinstance(item.targets[0], ast.Name):
-                try: ns[item.targets[0].id] = self.eval(item.value, env, mod)
-                except Unsupported: pass
+                try: ns[item.targets[0].id] = self.eval(item.value, cenv, mod)
+                except Unsupported as u: self.class_body_skipped = getattr(self, "class_body_skipped", []) + ["%s.%s: %s" % (node.name, item.targets[0].id, u)]
         return cls
 
     # ---------- solver
     def check(self, extra):
         s = z3.Solver(); s.set("timeout", self.timeout_ms)
+        for c in blob_facts(): s.add(c)
         for c in self.path.pc: s.add(c)
         for c in extra: s.add(c)
         t = time.time(); r = s.check(); self.solver_time += time.time() - t
@@ -334,7 +384,7 @@ class Engine:
     def truth(self, v):
         if is_symbool(v): return self.branch(v)
         if is_symint(v): return self.branch(v != 0)
-        if is_symbytes(v): return self.branch(z3.Length(v) != 0)
+        if is_symbytes(v): return self.branch(slen(v) != 0) if is_sym(slen(v)) else slen(v) != 0
         if isinstance(v, (Obj, Func, Builtin, ClassV, Lazy, Bound)): return True
         if isinstance(v, Opaque): raise Unsupported(f"truth of opaque {v}")
         return bool(v)
@@ -435,10 +485,9 @@ class Engine:
                 if isinstance(k, int) and not is_sym(by): return bytes(by) * k
                 if not is_sym(by) and set(by) <= {0} :
                     # zero fill of symbolic length: represent as fresh seq with len and all-zero axiom
-                    r = z3.Const(f"zeros!{self.fresh_n}", BYTES); self.fresh_n += 1
                     n_ = z3.If(k > 0, k, 0) * len(by)
+                    r = zerosfn(n_)          # slen(zeros(n)) == n structurally; the sequence solver sees no length constraint
                     i = z3.Int("i!q")
-                    self.assume(z3.Length(r) == n_)
                     self.assume(z3.ForAll([i], z3.Implies(z3.And(i >= 0, i < n_), r[i] == 0)))
                     return r
             raise Unsupported("bytes op")
@@ -632,6 +681,16 @@ class Engine:
                 hook = getattr(v, "missing", None)
                 raise PyRaise(Exc("KeyError"))
             return v[idx]
+        if isinstance(idx, BitOf) and isinstance(v, (list, tuple)) and len(v) == 2 and all(isinstance(x, (bytes, bytearray)) or is_symbytes(x) for x in v):
+            return z3.If(idx.term == 1, to_z3bytes(v[1]), to_z3bytes(v[0]))
+        if isinstance(idx, BitOf): idx = idx.term
+        if isinstance(v, (list, tuple)) and is_sym(idx) and v and all(isinstance(x, (bytes, bytearray)) or is_symbytes(x) for x in v):
+            # [ZERO, ONE][bit]: selection by a symbolic index, IndexError outside the list
+            if self.branch(z3.Or(idx < -len(v), idx >= len(v))): raise PyRaise(Exc("IndexError"))
+            r = to_z3bytes(v[-1])
+            for k in range(len(v) - 2, -1, -1):
+                r = z3.If(z3.Or(idx == k, idx == k - len(v)), to_z3bytes(v[k]), r)
+            return r
         if isinstance(v, (list, tuple, str, bytes)):
             if is_sym(idx): raise Unsupported("symbolic index into concrete seq")
             try: return v[idx]
@@ -914,12 +973,12 @@ def b_isinstance(eng, v, cls):
 
 def announced_len(v):
     if isinstance(v, Lazy):
-        return v.announced if v.announced is not None else z3.Length(to_z3bytes(v.final))
+        return v.announced if v.announced is not None else slen(to_z3bytes(v.final))
     if isinstance(v, ByteBuf): v = v.v
-    return z3.Length(v) if is_symbytes(v) else len(v)
+    return slen(v)
 
 def b_len(eng, v):
-    if is_symbytes(v): return z3.Length(v)
+    if is_symbytes(v): return slen(v)
     if isinstance(v, ByteBuf): return b_len(eng, v.v)
     if isinstance(v, Lazy):
         if v.size is not None: return v.size       # SizedDeferred.__len__
@@ -928,15 +987,31 @@ def b_len(eng, v):
 
 def b_struct_pack(eng, fmt, *vals):
     import struct
+    import re as _re
     vals = [eng.undyn(v) for v in vals]
     if not any(is_sym(v) for v in vals):
         try: return struct.pack(fmt, *vals)
         except struct.error: raise PyRaise(Exc("struct.error"))
     assert fmt[0] == "<"
-    if not all(c in "HBI" for c in fmt[1:]): raise Unsupported("struct fmt " + fmt)
+    codes = _re.findall(r"(\d*)([A-Za-z])", fmt[1:])
+    if "".join(n + c for n, c in codes) != fmt[1:] or not all(c in "HBIs" and (not n or c == "s") for n, c in codes): raise Unsupported("struct fmt " + fmt)
+    if len(codes) != len(vals): raise PyRaise(Exc("struct.error"))
     vals = [z3.IntVal(v) if isinstance(v, int) else v for v in vals]
     out = []
-    for code, v in zip(fmt[1:], vals):
+    for (cnt, code), v in zip(codes, vals):
+        if code == "s":
+            n = int(cnt or 1)
+            if isinstance(v, (bytes, bytearray)):
+                out.append(to_z3bytes(bytes(v[:n]).ljust(n, b"\0")))
+            elif is_symbytes(v):
+                # exact only when the length is known to be n (else struct pads / truncates)
+                ln = slen(v)
+                r = z3.unsat if (isinstance(ln, int) and ln == n) else (eng.check([ln != n])[0] if is_sym(ln) else z3.sat)
+                if r != z3.unsat: raise Unsupported("struct 's' with a symbolic sequence of unknown length")
+                out.append(v)
+            else: raise PyRaise(Exc("struct.error"))
+            continue
+        if not is_symint(v) and not isinstance(v, z3.IntNumRef): raise PyRaise(Exc("struct.error"))
         if code == "H":
             if eng.branch(z3.Or(v < 0, v > 65535)): raise PyRaise(Exc("struct.error"))
             out += [z3.Unit(v % 256), z3.Unit(v / 256)]
@@ -946,7 +1021,6 @@ def b_struct_pack(eng, fmt, *vals):
         elif code == "I":
             if eng.branch(z3.Or(v < 0, v > 2 ** 32 - 1)): raise PyRaise(Exc("struct.error"))
             out += [z3.Unit(v % 256), z3.Unit(v / 256 % 256), z3.Unit(v / 65536 % 256), z3.Unit(v / 16777216)]
-        else: raise Unsupported("struct fmt " + fmt)
     return out[0] if len(out) == 1 else z3.Concat(*out)
 
 def b_report(kind):
@@ -1021,7 +1095,7 @@ BUILTINS = {
     "isinstance": Builtin("isinstance", b_isinstance),
     "len": Builtin("len", b_len),
     "struct.pack": Builtin("struct.pack", b_struct_pack),
-    "int": TypeV("int", b_int, int), "str": TypeV("str", b_str, str), "bytes": TypeV("bytes", None, bytes),
+    "int": TypeV("int", b_int, int), "str": TypeV("str", b_str, str), "bytes": TypeV("bytes", lambda eng, v=b"": b_bytes(eng, v), bytes),
     "list": Builtin("list", lambda eng, v=(): list(eng.iterate(v))),
     "range": Builtin("range", lambda eng, *a: range(*a)),
     "zip": Builtin("zip", lambda eng, *a: list(zip(*[eng.iterate(x) for x in a]))),
@@ -1062,6 +1136,20 @@ class ByteBuf:
     def __init__(self, v=b""): self.v = bytes(v) if isinstance(v, (bytes, bytearray)) else v
 
 
+def b_bytes(eng, v=b""):
+    if isinstance(v, (bytes, bytearray)): return bytes(v)
+    if isinstance(v, ByteBuf): return v.v
+    if is_symbytes(v): return v
+    items = [eng.undyn(x) for x in eng.iterate(v)]
+    if not any(is_sym(x) for x in items):
+        try: return bytes(items)
+        except ValueError: raise PyRaise(Exc("ValueError"))
+    for x in items:
+        if is_sym(x) and eng.branch(z3.Or(x < 0, x > 255)): raise PyRaise(Exc("ValueError"))
+    us = [z3.Unit(z3.IntVal(x) if isinstance(x, int) else x) for x in items]
+    return us[0] if len(us) == 1 else z3.Concat(*us)
+
+
 def b_hasattr(eng, o, a):
     if isinstance(o, Obj):
         if a in o.attrs: return True
@@ -1081,7 +1169,14 @@ def b_minmax(eng, a, is_min):
     return r
 
 
+seqsum = z3.Function("seqsum", BYTES, z3.IntSort())
+
 def b_sum(eng, it, start=0):
+    if is_symbytes(it):
+        # sum of the elements of a byte sequence of symbolic length: uninterpreted, with the range fact for bytes
+        eng.assume(seqsum(it) >= 0); eng.assume(seqsum(it) <= 255 * slen(it))
+        eng.assumptions.add("sum(bytes of symbolic length) is an uninterpreted seqsum with 0 <= seqsum <= 255*len")
+        return start + seqsum(it)
     items = list(eng.iterate(it)); r = start
     for x in items: r = eng.binop(ast.Add(), r, x)
     return r
@@ -1101,7 +1196,8 @@ def b_struct_unpack(eng, fmt, data):
         try: return struct.unpack(fmt, data)
         except struct.error: raise PyRaise(Exc("struct.error"))
     if fmt == "<H":
-        if eng.branch(z3.Length(data) != 2): raise PyRaise(Exc("struct.error"))
+        ln = slen(data)
+        if (eng.branch(ln != 2) if is_sym(ln) else ln != 2): raise PyRaise(Exc("struct.error"))
         return (data[0] + 256 * data[1],)
     raise Unsupported("struct.unpack " + fmt)
 
